@@ -933,6 +933,14 @@ theorem function_result_is_the_declared_variable (r : Str) (vs : List Var)
     obtain ⟨h1, h2⟩ := takeVar_some r vs hnd w rest h
     rw [h1, h2]
 
+/-- What `FUNCTION_RE` DOES in the working tree is what `FuncHead.funcRe` computes: on every probe statement (both
+    orders of RESULT / BIND, with and without blanks, every prefix form, keyword-like names, repeated clauses,
+    malformed and foreign statements) the five groups the real compiled pattern yields - recorded on every run
+    by translate/c01.py - are the model's answer. -/
+theorem function_head_as_modelled :
+    (Generated.C01.funcProbes.all fun p => funcRe p.1 == p.2) = true ∧ Generated.C01.funcProbes.length ≥ 30 := by
+  decide +kernel
+
 /-- non-vacuity: a C-interoperable function in both suffix orders, prefix items, keyword-like names -/
 example :
     (funcRe (chars! "pure function to_kelvin(celsius) BIND (C, name=\"0\") Result( kelvin )")).map
